@@ -24,7 +24,7 @@ man = {
     'setup_cmd': claims.SETUP_CMD,
     'hooks': {
         'guard': 'kani',
-        'enable': 'none needed: /repo carries no instrumentation; contracts are spliced into an extracted copy (Verus) or injected into a scratch copy built with `cargo kani` (cfg(kani))',
+        'enable': 'none needed: /repo carries no instrumentation; contracts are spliced into an extracted copy (Verus) or injected into a scratch copy built with `cargo kani` (cfg(kani)): two modules (kverif, format::kformat) and, for the parser loop obligations, two #[cfg(kani)] observation-point calls added mechanically to the scratch copy of Formatter::parse_internal (tools/kanirun.py insert_parse_hooks; add-only, inert unless a parse_ind_* harness arms them)',
         'baseline_off_cmd': 'cd /repo && cargo test --workspace --no-fail-fast --offline',
         'source_commits': [],
         'add_only': True,
